@@ -422,6 +422,10 @@ def variant_exec(name):
                     # neither `std` nor `alloc`: CowBytes is a plain borrow, no Shift-Or, no into_owned
                     t = t.replace('memchr = { path = "/repo" }', 'memchr = { path = "/repo", default-features = false }')
                     c = c.replace('rustflags = ["--cfg", "memchr_verif"]', 'rustflags = ["--cfg", "memchr_verif", "--cfg", "memchr_verif_noalloc"]')
+                elif name == "nodebug":
+                    # what a release build does: no debug assertions, no overflow checks (a broken
+                    # invariant then shows as the misaligned / out-of-bounds access itself)
+                    t = t.replace("debug-assertions = true", "debug-assertions = false").replace("overflow-checks = true", "overflow-checks = false")
                 elif name == "avx2ct":
                     c = c.replace('rustflags = ["--cfg", "memchr_verif"]', 'rustflags = ["--cfg", "memchr_verif", "-C", "target-feature=+avx2"]')
                 else:
